@@ -36,8 +36,10 @@ Push(s, x) == Append(s, x)
 
 Unlimited == -1
 
-InitMachine(heap0, names0, clos0) ==
-    [ctl |-> [t |-> "start"], k |-> <<>>, vms |-> <<>>, heap |-> heap0, clos |-> clos0, names |-> names0,
+\* bound: the larger of the 10000-element cap and the longest list, dict or string the host supplied or
+\* the source spells out (property C03); no program may make a list or dict longer than that
+InitMachine(heap0, names0, clos0, bound) ==
+    [ctl |-> [t |-> "start"], k |-> <<>>, vms |-> <<>>, heap |-> heap0, clos |-> clos0, names |-> names0, bound |-> bound,
      log |-> <<>>, looked |-> {}, ci |-> 0, cvm |-> 0, nev |-> 0, results |-> <<>>, ev |-> <<>>]
 
 Running(m) == m.ctl.t \notin {"halt", "unspec"}
@@ -98,9 +100,31 @@ Ret(m, v)     == [m EXCEPT !.ctl = [t |-> "ret", v |-> v]]
 Raise(m, e)   == [m EXCEPT !.ctl = [t |-> "exc", e |-> e]]
 LeftDomain(m, why) == [m EXCEPT !.ctl = [t |-> "unspec", why |-> why]]
 
+(***************************************************************************)
+(* The size cap (property C03).  Normatively EVERY step that creates or    *)
+(* grows a list or dict beyond m.bound fails with a ParserError and leaves *)
+(* the heap unchanged.  The shipped code checks only push / insert / index *)
+(* assignment / compound index assignment (and only against the constant   *)
+(* cap); the unchecked growth paths are the deviations ConcatUnchecked     *)
+(* (list + list), ShortAddUnchecked (x += v, c[k] += v), ShortMulRepeats   *)
+(* (x *= k, c[k] *= k) and StrToListUnchecked (builtins that turn a string *)
+(* grown by the program into a list).                                      *)
+(***************************************************************************)
+Oversize(m, h2) == \E a \in 1..Len(h2) : /\ Len(h2[a].items) > m.bound
+                                         /\ (a > Len(m.heap) \/ Len(h2[a].items) > Len(m.heap[a].items))
+NodeExempt(node) ==
+    \/ node.k = "bin" /\ node.op = "+" /\ Dev("ConcatUnchecked")
+    \/ node.k = "short" /\ node.op = "+=" /\ Dev("ShortAddUnchecked")
+    \/ node.k = "short" /\ node.op = "*=" /\ Dev("ShortMulRepeats")
+BuiltinExempt(name, args) ==
+    \/ name = "__setitem_with_op__" /\ Len(args) = 4 /\ args[3].t = "str"
+       /\ ((args[3].s = <<43, 61>> /\ Dev("ShortAddUnchecked")) \/ (args[3].s = <<42, 61>> /\ Dev("ShortMulRepeats")))
+    \/ name \notin {"__setitem_with_op__"} /\ Dev("StrToListUnchecked")
+
 \* turn a result record of SQBuiltins into control
-Deliver(m, res) ==
-    IF IsVal(res.r) THEN Ret([m EXCEPT !.heap = res.h], res.r)
+Deliver(m, res, name, args) ==
+    IF IsVal(res.r) /\ Oversize(m, res.h) /\ ~BuiltinExempt(name, args) THEN Raise(m, ParserErr)
+    ELSE IF IsVal(res.r) THEN Ret([m EXCEPT !.heap = res.h], res.r)
     ELSE IF IsExc(res.r) THEN Raise([m EXCEPT !.heap = res.h], res.r)
     ELSE IF IsUnspec(res.r) THEN LeftDomain(m, res.r.unspec)
     ELSE LeftDomain(m, "unexpected result")
@@ -179,7 +203,8 @@ Dispatch(m) ==
 PopRet(m, node, v) == [m EXCEPT !.k = Pop(@), !.ctl = [t |-> "ret", v |-> v], !.ev = <<EvExit(node, v)>>]
 PopExc(m, node, e) == [m EXCEPT !.k = Pop(@), !.ctl = [t |-> "exc", e |-> e], !.ev = <<EvExc(node, e)>>]
 PopRes(m, node, res) ==
-    IF IsVal(res.r) THEN PopRet([m EXCEPT !.heap = res.h], node, res.r)
+    IF IsVal(res.r) /\ Oversize(m, res.h) /\ ~NodeExempt(node) THEN PopExc(m, node, ParserErr)
+    ELSE IF IsVal(res.r) THEN PopRet([m EXCEPT !.heap = res.h], node, res.r)
     ELSE IF IsExc(res.r) THEN PopExc([m EXCEPT !.heap = res.h], node, res.r)
     ELSE IF IsUnspec(res.r) THEN LeftDomain(m, res.r.unspec)
     ELSE LeftDomain(m, "oracle needed: " \o res.r.oracle)
@@ -197,7 +222,8 @@ ShortApply(m, fr, v) ==
     IN IF cur = Undef
        THEN PopExc(m1, node, IF Dev("ShortOpKeyError") THEN OtherErr("KeyError") ELSE ParserErr)
        ELSE LET ip == InplaceApply(m1.heap, node.op, cur, cp.v) IN
-            IF IsVal(ip.r) THEN PopRet(Store([m1 EXCEPT !.heap = ip.h], vm, node.name, ip.r), node, None)
+            IF IsVal(ip.r) /\ Oversize(m1, ip.h) /\ ~NodeExempt(node) THEN PopExc(m1, node, ParserErr)
+            ELSE IF IsVal(ip.r) THEN PopRet(Store([m1 EXCEPT !.heap = ip.h], vm, node.name, ip.r), node, None)
             ELSE PopRes(m1, node, ip)
 
 \* SliceOp: safe_cast(x, int) on each bound in order
@@ -284,8 +310,10 @@ CallF(m, f, args) == [m EXCEPT !.ctl = [t |-> "call", f |-> f, args |-> args]]
 \* current element sequence of a live container
 LiveItems(m, src) == IterItems(m.heap, src)
 
-FinishList(m, xs) == LET al == Alloc(m.heap, NewList(xs)) IN
-                     [m EXCEPT !.heap = al.h, !.k = Pop(@), !.ctl = [t |-> "ret", v |-> ListRef(al.a)]]
+FinishList(m, xs) == IF Len(xs) > m.bound /\ ~Dev("StrToListUnchecked")
+                     THEN [m EXCEPT !.k = Pop(@), !.ctl = [t |-> "exc", e |-> ParserErr]]
+                     ELSE LET al == Alloc(m.heap, NewList(xs)) IN
+                          [m EXCEPT !.heap = al.h, !.k = Pop(@), !.ctl = [t |-> "ret", v |-> ListRef(al.a)]]
 PopRaise(m, e) == [m EXCEPT !.k = Pop(@), !.ctl = [t |-> "exc", e |-> e]]
 
 HoNextReduce(m, fr, its) ==
@@ -357,6 +385,7 @@ StartHo(m, name, args) ==
     LET n == Len(args)
         a1 == Arg(args, 1, None)  a2 == Arg(args, 2, None)  a3 == Arg(args, 3, Bool(FALSE)) IN
     IF \E i \in 1..n : args[i].t = "opaque" THEN LeftDomain(m, "opaque argument")
+    ELSE IF n >= 1 /\ TooLong(m.heap, a1) THEN LeftDomain(m, "container too long for stepwise higher-order evaluation")
     ELSE CASE name = "map" ->
             IF n # 2 THEN Raise(m, TypeErr)
             ELSE IF a1.t \in {"list", "str"} THEN HoNext([m EXCEPT !.k = Push(@, HoFrame("map", a1, a2))])
@@ -471,7 +500,8 @@ OracleOk(h, name, args, orc) ==
 
 AdoptOracle(m, args, orc) ==
     IF orc.t = "elem" THEN Ret(m, Items(m.heap, args[1])[orc.i])
-    ELSE LET r == Materialize(m.heap, orc.v) IN Ret([m EXCEPT !.heap = r.h], r.v)
+    ELSE LET r == Materialize(m.heap, orc.v) IN
+         IF Oversize(m, r.h) /\ ~Dev("StrToListUnchecked") THEN Raise(m, ParserErr) ELSE Ret([m EXCEPT !.heap = r.h], r.v)
 
 ApplyOracle(m, name, args, orc) ==
     LET n == Len(args) IN
@@ -520,7 +550,7 @@ ApplyCall(m, host, orc) ==
             IF f.name \in HigherOrder THEN StartHo(m0, f.name, args)
             ELSE IF f.name \in Relational THEN ApplyOracle(m0, f.name, args, orc)
             ELSE LET res == CallAtomic(m0.heap, f.name, args) IN
-                 IF "oracle" \in DOMAIN res.r THEN ApplyOracle(m0, res.r.oracle, args, orc) ELSE Deliver(m0, res)
+                 IF "oracle" \in DOMAIN res.r THEN ApplyOracle(m0, res.r.oracle, args, orc) ELSE Deliver(m0, res, f.name, args)
       [] f.t = "hostfn" -> ApplyHost(m0, host, f.name, args)
       [] f.t = "opaque" -> LeftDomain(m0, "call of opaque value")
       [] OTHER -> Raise(m0, TypeErr)
